@@ -161,6 +161,12 @@ def cases(rng, tier):
             for options in (None, {"use": "sig"}, {"kid": "my-kid", "alg": "X"}):
                 for _ in range(2 if tier == "quick" else 12):
                     out.append({"op": "key_obj_hist", "kind": kind, "init": init, "options": options, "calls": [rng.choice(CALLS) for _ in range(rng.randrange(1, 8))]})
+    # the legacy module-level helpers authlib.jose.jwk.dumps / loads, and what an ECDH-ES encryption publishes of its ephemeral key
+    for kind in ("RSA-2048", "EC-P-256", "OKP-Ed25519", "oct-16"):
+        out.append({"op": "legacy_dumps", "kind": kind})
+    for alg in ("ECDH-ES", "ECDH-ES+A128KW"):
+        for kind in ("EC-P-256", "EC-P-521", "OKP-X25519", "OKP-X448"):
+            out.append({"op": "epk_header", "alg": alg, "kind": kind})
     out.append({"op": "keyset", "kinds": ["RSA-2048", "EC-P-256-lz", "OKP-Ed25519", "oct-16"]})
     out.append({"op": "keyset", "kinds": ["EC-P-521-lz", "OKP-X25519"]})
     out.append({"op": "keyset", "kinds": ["RSA-2048", "RSA-1024", "EC-P-256", "EC-P-384-lz", "OKP-Ed25519", "OKP-Ed448"]})       # several members of one type, none with an explicit kid
@@ -264,6 +270,23 @@ def impl(c):
             except Exception as e:
                 res.append("raised " + type(e).__name__)
         return {"exports": res}
+    if op == "legacy_dumps":
+        import warnings
+        from authlib.jose import jwk as legacy
+        k = make_key(c["kind"], rng)
+        with warnings.catch_warnings():
+            warnings.simplefilter("ignore")
+            d = legacy.dumps(k if isinstance(k, bytes) else R.pem_private(k), kty={"RSA": "RSA", "EC": "EC", "OKP": "OKP", "oct": "oct"}[c["kind"].split("-")[0]])
+            back = JsonWebKey.import_key(json.loads(json.dumps(d)))      # (the deprecated legacy.loads only takes key sets)
+        want = ref_jwk(k, True)
+        return {"members": sorted(d), "private_kept": all(d.get(m) == v for m, v in want.items()), "reimport_private": (not getattr(back, "public_only", False)) if not isinstance(k, bytes) else True}
+    if op == "epk_header":
+        from authlib.jose import JsonWebEncryption
+        k = make_key(c["kind"], rng)
+        key = import_obj(k.public_key())
+        tok = JsonWebEncryption().serialize_compact({"alg": c["alg"], "enc": "A128GCM"}, b"x", key)
+        hdr = json.loads(base64.urlsafe_b64decode(tok.split(b".")[0] + b"=="))
+        return {"epk_members": sorted(hdr.get("epk", {}))}
     if op == "key_obj_hist":
         k = make_key(c["kind"], rng)
         private = c["init"].startswith("private")
@@ -470,6 +493,14 @@ def oracle(c, out):
                 leak = PRIVATE_ONLY & set(members)
                 if leak:
                     bad(f"{where} contains private members {sorted(leak)}", kind="private-leak", where="key-history"); break
+    elif op == "legacy_dumps":
+        if not out["private_kept"] or not out["reimport_private"]:
+            bad(f"authlib.jose.jwk.dumps of a private {c['kind']} key gives members {out['members']}: the export does not hold the key's private members / re-imports as a public key",
+                kind="private-export", where="legacy-dumps")
+    elif op == "epk_header":
+        leak = PRIVATE_ONLY & set(out["epk_members"])
+        if leak:
+            bad(f"{c['alg']} over {c['kind']}: the ephemeral public key published in the JWE header contains private members {sorted(leak)}", kind="private-leak", where="epk")
     elif op == "key_obj_hist":
         k = make_key(c["kind"], _rng_for_model())
         private = c["init"].startswith("private")
